@@ -99,8 +99,7 @@ def search(res, tier, boost=False):
         elems = list(mesh.leaf_elements)
         L = float(gamma.gamma_length)
         closed = bool(gamma.closed)
-        for _ in range(n_pts):
-            e = rng.choice(elems)
+        def pick(e):
             xa, xb = map(float, e.space_interval)
             ta, tb = map(float, e.time_interval)
             hx = xb - xa
@@ -117,23 +116,29 @@ def search(res, tier, boost=False):
             if closed:
                 xh = xh % L
             if not (0 <= xh <= L):
-                continue
+                return None
             tkind = rng.choice(['mid', 'end', 'after', 'start', 'early'])
             # 'early': the sharpest kernel the quantifier admits (ratio h_x^2/tau between 4 and 16)
             t = {'mid': rng.uniform(ta, tb), 'end': tb, 'after': tb + rng.uniform(0.05, 1.0) * (tb - ta), 'start': ta,
                  'early': ta + hx**2 / 16 * rng.uniform(1.0, 4.0)}[tkind]
             taus = [v for v in (t - ta, t - tb) if v > 0]
             if t > ta and (not taus or hx**2 / min(taus) > 16):
-                continue
+                return None
+            return t, xh
+
+        def check(e, t, xh, sweep=False):
+            xa, xb = map(float, e.space_interval)
+            ta, tb = map(float, e.time_interval)
+            hx = xb - xa
             x = gamma.eval(np.array([xh])).reshape(2, 1)
             try:
                 val = SL.evaluate(e, t, xh, x)
             except AssertionError:
-                continue  # closer than 1e-5 to an end point from inside: documented precondition
+                return  # closer than 1e-5 to an end point from inside: documented precondition
             if t <= ta:
                 if val != 0:
                     res.violation('C07:nonzero-before-start', dict(curve=cname, elem=describe(e), t=t, x_hat=xh))
-                continue
+                return
             K = numref.tik(t, ta, tb)
             g = e.gamma_space
             inside = xa <= xh <= xb
@@ -150,7 +155,7 @@ def search(res, tier, boost=False):
             else:
                 zone, tol = 'near', 2e-3
             worst[zone] = max(worst[zone], err)
-            res.count(('pt', cname, mi, repr(e), xh, t), True)
+            res.count(('pt', cname, mi, repr(e), xh, t, sweep), True)
             if err > tol:
                 res.violation('C07:evaluate-inaccurate:' + zone, dict(curve=cname, elem=describe(e), t=t, x_hat=xh, value=float(val),
                               reference=ref, rel_error=err, tolerance=tol))
@@ -167,4 +172,24 @@ def search(res, tier, boost=False):
                         if ex > 1e-7:
                             res.violation('C07:evaluate_exact-inaccurate', dict(curve=cname, elem=describe(e), t=t, x_hat=xh,
                                           value=float(vx), reference=ref, rel_error=ex))
+        for _ in range(n_pts):
+            e = rng.choice(elems)
+            got = pick(e)
+            if got is not None:
+                check(e, got[0], got[1])
+        # whole-mesh sweeps: ONE point (t, x_hat), every element of the mesh in leaf order by the same operator, as
+        # evaluate_vector / the residual do (anything remembered per point between elements is in play); points are
+        # drawn relative to a random element so that the neighbours lie in the admitted parabolic range
+        for _ in range(3 if tier == 'quick' else 10):
+            got = pick(rng.choice(elems))
+            if got is None:
+                continue
+            t, xh = got
+            for e in elems:
+                ta, tb = map(float, e.time_interval)
+                hx = float(e.space_interval[1] - e.space_interval[0])
+                taus = [v for v in (t - ta, t - tb) if v > 0]
+                if t > ta and (not taus or hx**2 / min(taus) > 16):
+                    continue          # outside the quantifier (kernel sharper than the rules are designed for)
+                check(e, t, xh, sweep=True)
     res.notes['worst_rel_error'] = worst
